@@ -166,6 +166,25 @@ impl Default for Inv {
     }
 }
 
+/// a plain-old-data byte (Copy + Default) whose DEFAULT (50) is not its zeroized value (0): a shortcut that
+/// overwrites Copy + Default elements with `T::default()` instead of calling the element's Zeroize shows here --
+/// such a shortcut can only be picked for a CONCRETE element type (op 5), not through `T: Zeroize`
+#[derive(Clone, Copy, PartialEq, Debug)]
+struct Lv(u8);
+impl Zeroize for Lv {
+    fn zeroize(&mut self) {
+        self.0 = 0;
+    }
+}
+impl ConstDefault for Lv {
+    const DEFAULT: Self = Lv(50);
+}
+impl Default for Lv {
+    fn default() -> Self {
+        Lv(50)
+    }
+}
+
 /// one byte that COUNTS its wipes: zeroize is not idempotent here (x -> x + 1), so an element that is
 /// reached twice differs from one that is reached once
 #[derive(Clone, PartialEq, Debug)]
@@ -312,6 +331,15 @@ impl Elem for Inv {
         self.0 as i128
     }
 }
+impl Elem for Lv {
+    const BITS: u32 = 8;
+    fn dec(c: i128) -> Self {
+        Lv(c as u8)
+    }
+    fn enc(&self) -> i128 {
+        self.0 as i128
+    }
+}
 impl Elem for Cnt {
     const BITS: u32 = 8;
     fn dec(c: i128) -> Self {
@@ -353,7 +381,7 @@ impl Elem for GenericArray<W, U3> {
     }
 }
 
-const NTY: i128 = 12;
+const NTY: i128 = 14;
 fn bits_of(ty: i128) -> u32 {
     match ty {
         0 => <u8 as Elem>::BITS,
@@ -367,6 +395,7 @@ fn bits_of(ty: i128) -> u32 {
         8 => <KeepBig as Elem>::BITS,
         9 => <Inv as Elem>::BITS,
         11 => <Cnt as Elem>::BITS,
+        13 => <Lv as Elem>::BITS,
         _ => <Page as Elem>::BITS,
     }
 }
@@ -554,10 +583,51 @@ fn run_ty_short<T: Elem>(digits: &[i128], op: i128, prior: &[i128]) -> Option<Ve
     dispatch_digits!(T, digits, op, prior, [U0, U1, U2, U3, U4])
 }
 
+/// op 5: `arr.zeroize()` in method-call syntax on a CONCRETE array type, written out per (element, length): method
+/// resolution sees the concrete element type here (inherent methods and more specific impls are candidates)
+fn run_concrete(ty: i128, n: usize, prior: &[i128]) -> Option<Vec<i128>> {
+    macro_rules! conc {
+        ($T:ty, $N:ty) => {{
+            let mut arr: GenericArray<$T, $N> = GenericArray::from_iter(prior.iter().map(|c| <$T as Elem>::dec(*c)));
+            arr.zeroize();
+            let mut out = vec![<$N as Unsigned>::USIZE as i128];
+            out.extend(arr.iter().map(|e| e.enc()));
+            Some(out)
+        }};
+    }
+    macro_rules! by_len {
+        ($T:ty) => {
+            match n {
+                0 => conc!($T, U0),
+                1 => conc!($T, U1),
+                2 => conc!($T, U2),
+                3 => conc!($T, U3),
+                8 => conc!($T, U8),
+                33 => conc!($T, U33),
+                _ => None,
+            }
+        };
+    }
+    match ty {
+        0 => by_len!(u8),
+        1 => by_len!(u64),
+        4 => by_len!(Fd),
+        9 => by_len!(Inv),
+        11 => by_len!(Cnt),
+        13 => by_len!(Lv),
+        _ => None,
+    }
+}
+const CONCRETE_TYS: [i128; 6] = [0, 1, 4, 9, 11, 13];
+const CONCRETE_LENS: [usize; 6] = [0, 1, 2, 3, 8, 33];
+
 fn run_case(case: &[i128]) -> Vec<i128> {
     let (op, ty, nd) = (case[0], case[1], case[2] as usize);
     let digits = &case[3..3 + nd];
     let prior = &case[3 + nd..];
+    if op == 5 {
+        return run_concrete(ty, value(digits), prior).expect("concrete (type, length) not written out");
+    }
     if op == 4 {
         let (n, codes, ok) = const_item(ty, digits).expect("no const item of that type and length");
         if !ok {
@@ -580,6 +650,7 @@ fn run_case(case: &[i128]) -> Vec<i128> {
         9 => run_ty::<Inv>(digits, op, prior),
         10 => run_ty_short::<Page>(digits, op, prior),
         11 => run_ty::<Cnt>(digits, op, prior),
+        13 => run_ty::<Lv>(digits, op, prior),
         _ => panic!("bad element type {}", ty),
     };
     r.expect("length type not monomorphised")
@@ -624,6 +695,9 @@ fn main() {
         let n = value(ds);
         let shape = if ds.last() == Some(&0) { "nonnormalised" } else { "normalised" };
         for ty in 0..NTY {
+            if ty == 12 {
+                continue; // 12 is the probe's zero-sized type (c19p.rs)
+            }
             if ty == 10 && (n > 4 || ds.last() == Some(&0)) {
                 continue; // 5000-byte elements: small arrays only (they live on the stack)
             }
@@ -650,6 +724,14 @@ fn main() {
                     let mut one = vec![0; n];
                     one[rng.below(n as u64) as usize] = max;
                     contents.push(one);
+                }
+            }
+            if CONCRETE_TYS.contains(&ty) && CONCRETE_LENS.contains(&n) && ds.last() != Some(&0) {
+                for prior in &contents {
+                    dist("op5");
+                    let mut c = head(5, ty, ds);
+                    c.extend(prior);
+                    do_case(c);
                 }
             }
             for prior in contents {
